@@ -390,6 +390,11 @@ def same_key(k1: Any, k2: Any) -> bool:
         if not isinstance(k2, (str, AnyURI, UntypedAtomic)):
             return False
         return str(k1) == str(k2)
+    elif isinstance(k2, (str, AnyURI, UntypedAtomic)):
+        return False
+    elif isinstance(k1, bool) or isinstance(k2, bool):
+        # xs:boolean is not comparable with the numeric types (Python's True == 1)
+        return isinstance(k1, bool) and isinstance(k2, bool) and k1 is k2
     elif isinstance(k1, float) and math.isnan(k1):
         return isinstance(k2, float) and math.isnan(k2)
     elif isinstance(k1, AbstractQName) ^ isinstance(k2, AbstractQName):
@@ -397,5 +402,5 @@ def same_key(k1: Any, k2: Any) -> bool:
 
     try:
         return True if k1 == k2 else False
-    except TypeError:
+    except (TypeError, ValueError, ArithmeticError):
         return False  # EAFP :)
